@@ -43,6 +43,7 @@ def idem_failures(h, cases):
 def classify(h, fails):
     """known-finding class of each failure, decided on the INPUT:
        F29            the input has a do-block statement followed by a comment on the same line
+                      (and the second pass fails to parse)
        C07-roundtrip  the formatter's output for this input does not re-parse to the input's AST
                       (comments and spans ignored): property C07 already fails on this input
                       (F12-F14 dropped parentheses, F18 `if` + newline)"""
@@ -51,7 +52,7 @@ def classify(h, fails):
     res = []
     for f, a, b in zip(fails, src_ast, out_ast):
         sc = f[0]
-        if sc.case.do_trailing:
+        if sc.case.do_trailing and f[3][0] != "OK":
             res.append("F29")
         elif a != b:
             res.append("C07-roundtrip")
@@ -144,7 +145,7 @@ def main(argv):
         "programs": len(cases), "driver_runs_formatted_twice": runs, "failures_total": len(fails),
         "known_class_hits": known_hits, "blank_lines_between_statements": dict(sorted(gaps.items())),
         "generator": L.generator_distribution(progs),
-        "parser_rejects": sum(1 for sc in cases if sc.lib1[0] != "OK")}
+        "parser_rejects": L.check_reject_rate(res, cases)}
     res.assumptions = [
         "the CLI driver always formats at the default width (it has no width option)",
         "blots-wasm::format_blots is exercised through its line-by-line mirror in harness/src/s_c0809.rs",
